@@ -455,22 +455,28 @@ package stats
 // last one - so the lookups in PMF/CDF cannot miss) and the K == 2 base case
 // are proved; that the table holds the counts acnt for K > 2 stays an
 // assumption (label assumed-count) with a bounded stand-in.
+// K == 2 base case of the tie recurrence: the number of ways to take n1 values
+// from two tie groups with 2U <= u, as the sum the code accumulates.
+//@ spec r2hi(t []int, n1 int, u int) int = (u - n1*(t[0]-n1)) >= 0 ? tdiv(u - n1*(t[0]-n1), t[0]+t[1]) : -1
+//@ spec s2(t []int, n1 int, r int) float64 = r < max(0, n1 - t[0]) ? 0 : s2(t, n1, r-1) + mathx.Choose(t[0], n1 - r) * mathx.Choose(t[1], r)
+//@ spec base2(t []int, n1 int, u int) float64 = s2(t, n1, r2hi(t, n1, u))
 //@ func makeUmemo
 //@   model real
 //@   requires len(t) >= 2 && t[0] + t[1] != 0
 //@   results A
 //@   ensures [shape] len(A) == len(t) + 1
 //@   ensures [root]  haskey(A[len(t)], ukey{n1, twoU})
+//@   ensures [base-case] len(t) == 2 ==> A[2][ukey{n1, twoU}] == base2(t, n1, twoU)
 //@   ensures [assumed-count] A[len(t)][ukey{n1, twoU}] == acnt(t, n1, twoU)
 //@   loop 1 (k) invariant K == len(t) && 2 <= k && k <= K + 1 && len(a) == K + 1 && fresh(a)
 //@   loop 2 (k) invariant K == len(t) && 1 <= k && k <= K - 1 && len(a) == K + 1 && fresh(a) && len(A) == K + 1 && fresh(A) && (forall j in k+1..K+1 :: allocated(A[j]) && fresh(A[j])) && (forall i in k+1..K+1, j in k+1..K+1 :: i != j ==> A[i] != A[j]) && haskey(A[K], ukey{n1, twoU})
 //@   loop 3 (A_kplus1) invariant K == len(t) && 2 <= k && k <= K - 1 && len(a) == K + 1 && fresh(a) && len(A) == K + 1 && fresh(A) && (forall j in k..K+1 :: allocated(A[j]) && fresh(A[j])) && (forall i in k..K+1, j in k..K+1 :: i != j ==> A[i] != A[j]) && haskey(A[K], ukey{n1, twoU})
 //@   loop 4 (rk) invariant K == len(t) && 2 <= k && k <= K - 1 && len(a) == K + 1 && fresh(a) && len(A) == K + 1 && fresh(A) && (forall j in k..K+1 :: allocated(A[j]) && fresh(A[j])) && (forall i in k..K+1, j in k..K+1 :: i != j ==> A[i] != A[j]) && haskey(A[K], ukey{n1, twoU})
-//@   loop 5 (A_2i) invariant K == len(t) && len(a) == K + 1 && fresh(a) && len(A) == K + 1 && fresh(A) && (forall j in 2..K+1 :: fresh(A[j])) && haskey(A[K], ukey{n1, twoU})
-//@   loop 6 (r2) invariant K == len(t) && len(a) == K + 1 && fresh(a) && len(A) == K + 1 && fresh(A) && (forall j in 2..K+1 :: fresh(A[j])) && haskey(A[K], ukey{n1, twoU})
-//@   loop 7 (k) invariant K == len(t) && 3 <= k && k <= K + 1 && len(a) == K + 1 && fresh(a) && len(A) == K + 1 && fresh(A) && (forall j in 2..K+1 :: fresh(A[j])) && haskey(A[K], ukey{n1, twoU})
-//@   loop 8 (A_ki) invariant K == len(t) && 3 <= k && k <= K && len(a) == K + 1 && fresh(a) && len(A) == K + 1 && fresh(A) && (forall j in 2..K+1 :: fresh(A[j])) && haskey(A[K], ukey{n1, twoU})
-//@   loop 9 (rk) invariant K == len(t) && 3 <= k && k <= K && len(a) == K + 1 && fresh(a) && len(A) == K + 1 && fresh(A) && (forall j in 2..K+1 :: fresh(A[j])) && haskey(A[K], ukey{n1, twoU})
+//@   loop 5 (A_2i) invariant (forall key ukey :: visited(key) ==> A[2][key] == base2(t, key.n1, key.twoU)) && N_2 == t[0] + t[1] && K == len(t) && len(a) == K + 1 && fresh(a) && len(A) == K + 1 && fresh(A) && (forall i in 2..K+1, j in 2..K+1 :: i != j ==> A[i] != A[j]) && (forall j in 2..K+1 :: fresh(A[j])) && haskey(A[K], ukey{n1, twoU})
+//@   loop 6 (r2) invariant (forall key ukey :: visited(key, 5) ==> A[2][key] == base2(t, key.n1, key.twoU)) && N_2 == t[0] + t[1] && r2Low == max(0, A_2i.n1 - t[0]) && r2High == r2hi(t, A_2i.n1, A_2i.twoU) && r2 >= r2Low && r2 <= max(r2Low, r2High + 1) && Asum == s2(t, A_2i.n1, r2 - 1) && haskey(A[2], A_2i) && !visited(A_2i, 5) && K == len(t) && len(a) == K + 1 && fresh(a) && len(A) == K + 1 && fresh(A) && (forall i in 2..K+1, j in 2..K+1 :: i != j ==> A[i] != A[j]) && (forall j in 2..K+1 :: fresh(A[j])) && haskey(A[K], ukey{n1, twoU})
+//@   loop 7 (k) invariant (forall key ukey :: haskey(A[2], key) ==> A[2][key] == base2(t, key.n1, key.twoU)) && K == len(t) && 3 <= k && k <= K + 1 && len(a) == K + 1 && fresh(a) && len(A) == K + 1 && fresh(A) && (forall i in 2..K+1, j in 2..K+1 :: i != j ==> A[i] != A[j]) && (forall j in 2..K+1 :: fresh(A[j])) && haskey(A[K], ukey{n1, twoU})
+//@   loop 8 (A_ki) invariant (forall key ukey :: haskey(A[2], key) ==> A[2][key] == base2(t, key.n1, key.twoU)) && K == len(t) && 3 <= k && k <= K && len(a) == K + 1 && fresh(a) && len(A) == K + 1 && fresh(A) && (forall i in 2..K+1, j in 2..K+1 :: i != j ==> A[i] != A[j]) && (forall j in 2..K+1 :: fresh(A[j])) && haskey(A[K], ukey{n1, twoU})
+//@   loop 9 (rk) invariant (forall key ukey :: haskey(A[2], key) ==> A[2][key] == base2(t, key.n1, key.twoU)) && K == len(t) && 3 <= k && k <= K && len(a) == K + 1 && fresh(a) && len(A) == K + 1 && fresh(A) && (forall i in 2..K+1, j in 2..K+1 :: i != j ==> A[i] != A[j]) && (forall j in 2..K+1 :: fresh(A[j])) && haskey(A[K], ukey{n1, twoU})
 //@   assigns nothing
 
 // UDist.p: the in-place two-dimensional dynamic programme is proved to
